@@ -33,7 +33,6 @@ var propC11 = &pProp{
 				o.MaxExpr = 0
 				if gp.LeftRec {
 					o.Memoize = false // the model (needed to know which errors seed growing keeps) has no memo
-					o.Entrypoint = ""
 				}
 				reqs = append(reqs, &parsersim.Request{ID: fmt.Sprintf("c11-%s-i%d-o%d", gp.Name, ii, k), Kind: "c11", Parser: gp.Name,
 					Call: parsersim.Call{Input: in, Opts: o, Plan: drawPlan(r, gp.HasState)},
